@@ -34,7 +34,19 @@ def box_mesh(dim, elem, fine=False):
     key = (dim, elem, fine)
     if key not in _MESH:
         with quiet():
-            if dim == 2:
+            if dim == 2 and "|" in elem:
+                # the box meshed in two pieces of different element types, merged (the type listed first is inserted first): two element
+                # groups of the main dimension AND of the boundary, in an order the mesher itself never produces
+                from EasyFEA.FEM import Mesh
+
+                ea, eb = elem.split("|")
+                h = 0.4 if fine else 1.1
+                ma = Mesher().Mesh_2D(Domain(Point(0, 0), Point(1.5, 2), h), [], ElemType(ea))
+                mb = Mesher().Mesh_2D(Domain(Point(1.5, 0), Point(3, 2), h), [], ElemType(eb))
+                _MESH[key] = Mesh.Merge([ma, mb])
+                if _MESH[key].Nn >= ma.Nn + mb.Nn:
+                    raise RuntimeError("harness: the two pieces of the box were not joined")
+            elif dim == 2:
                 _MESH[key] = Mesher().Mesh_2D(Domain(Point(0, 0), Point(3, 2), 0.4 if fine else 1.1), [], ElemType(elem))
             else:
                 _MESH[key] = Mesher().Mesh_Extrude(Domain(Point(0, 0), Point(3, 2), 0.25 if fine else 1.3), [], [0, 0, 2], [8 if fine else 2], ElemType(elem))
@@ -224,11 +236,13 @@ def run(ctx):
     allcases = res.prints.get("CASE", [])
     beamcases = sorted([c for c in allcases if c["cfg"]["kind"] == "beamLine"], key=lambda c: sorted(c["cfg"].items()))
     cases = [c for c in allcases if c["cfg"]["kind"] != "beamLine"]
-    e2 = ["TRI3", "TRI6", "QUAD4", "QUAD8"] + (["TRI10", "TRI15", "QUAD9"] if ctx.thorough else [])
+    e2 = ["TRI3", "TRI6", "QUAD4", "QUAD8", "QUAD4|TRI3"] + (["TRI10", "TRI15", "QUAD9", "TRI6|QUAD8"] if ctx.thorough else [])
     e3 = ["TETRA4", "HEXA8", "PRISM6"] + (["TETRA10", "HEXA20", "HEXA27", "PRISM15", "PRISM18"] if ctx.thorough else [])
     jobs = []
     for i, c in enumerate(cases):
         for elem in (e2 if c["cfg"]["dim"] == 2 else e3):
+            if "|" in elem and (c["cfg"]["stray"] or c["cfg"].get("flood")):
+                continue  # a merged mesh keeps the welded interface as boundary elements: interior nodes of a selection may legitimately bound one
             jobs.append((i, c, elem, "elastic"))
             if c["cfg"]["kind"] != "pressure" and (ctx.thorough or i % 3 == 0):
                 jobs.append((i, c, elem, "thermal"))
